@@ -204,6 +204,7 @@ def dispatch (op : String) (args : List Sexp) : String :=
   | "raw.flatten" => opFlatten args
   | "geom.contains" => opContains args
   | "dep.tolerant" => "unsupported"
+  | "dep.ports" => "unsupported"
   | "dep.generic" => opDep false args
   | "dep.raw" => opDep true args
   | "dep.tetris" => opDep true args
